@@ -456,11 +456,13 @@ def run(ctx):
                     combos.append(((c,), (t,), "any", min_it, None))
             combos.append(((c,), (1e300,), "all", 3, None))
             combos.append(((c,), (1e300,), "any", None, 2))
-        pairs = list(itertools.combinations(CRITERIA, 2))
+        # both orders of every pair: tolerances are matched to criteria by position
+        pairs = list(itertools.permutations(CRITERIA, 2))
         if ctx.quick:
             pairs = pairs[::3]
+        pairs += [("log_evidence", "ratio_all"), ("evidence_error", "ess")]
         for a, b in pairs:
-            pa, pb = placements([r[a] for r in rec]), placements([r[b] for r in rec])
+            pa, pb = placements([r[ALIASES.get(a, a)] for r in rec]), placements([r[ALIASES.get(b, b)] for r in rec])
             if ctx.quick:
                 pa, pb = pa[::2], pb[::2]
             for ta in pa:
